@@ -119,17 +119,36 @@ def algebra_jacobians(ctx, spec, N, chunk):
         # a stale block, ... only show in such call histories)
         base = spec.alg_rand(rng, 6, thi=30.0, tlo=1.0)
         sweep = np.concatenate([b[None, :] * (1 + 1e-7 * np.arange(4))[:, None] for b in base])
-        Xn = np.concatenate([X[:12], spec.alg_rand(rng, 30, thi=10.0), spec.alg_rand(rng, 20, hi=2e-3, tlo=1e-9, thi=3e-7), sweep])
+        # ... and structured vectors: blocks that are exactly zero (no rotation / no translation: numeric arguments can be
+        # tested for zero, symbolic ones cannot), single components, and O(1) vectors with one component of 1e-9..1e-6
+        # (tolerance-based clean-ups of numeric matrices)
+        S = spec.alg_rand(rng, 200, hi=PI - 0.1, thi=3.0, tlo=0.1)[:30]
+        S[0:6, -3:] = 0.0
+        if na > 3:
+            S[6:10, :-3] = 0.0
+            S[10:13, :3] = 0.0
+        for k_ in range(13, 19):
+            keep = int(rng.integers(0, na)); v_ = S[k_, keep]; S[k_] = 0.0; S[k_, keep] = v_
+        for k_ in range(19, len(S)):
+            S[k_, int(rng.integers(0, na))] = float(rng.choice([-1.0, 1.0]) * O.loguniform(rng, 1e-9, 1e-6, 1)[0])
+        Xn = np.concatenate([X[:12], spec.alg_rand(rng, 30, thi=10.0), spec.alg_rand(rng, 20, hi=2e-3, tlo=1e-9, thi=3e-7), sweep, S])
         Xn = Xn[spec.alg_angle(Xn) <= 2 * PI - 0.05]
         rl, rr = ref_jacobians(spec, Xn)
-        el_, er_ = [], []
+        el_, er_, eli_, eri_ = [], [], [], []
         for k in range(len(Xn)):
             e_ = alg.elem(ca.DM(Xn[k]))
             vl, vr = ca.DM(e_.left_jacobian()).full(), ca.DM(e_.right_jacobian()).full()
+            vli, vri = ca.DM(e_.left_jacobian_inv()).full(), ca.DM(e_.right_jacobian_inv()).full()
             el_.append(float(np.abs(vl - rl[k]).max()) if np.isfinite(vl).all() else np.inf)
             er_.append(float(np.abs(vr - rr[k]).max()) if np.isfinite(vr).all() else np.inf)
-        ctx.check_array("numeric_left_jacobian_is_dexp", name, el_, 1e-9 * spec.alg_scale(Xn), {"x": Xn})
-        ctx.check_array("numeric_right_jacobian_is_dexp", name, er_, 1e-9 * spec.alg_scale(Xn), {"x": Xn})
+            eli_.append(float(np.abs(rl[k] @ vli - I).max()) if np.isfinite(vli).all() else np.inf)
+            eri_.append(float(np.abs(rr[k] @ vri - I).max()) if np.isfinite(vri).all() else np.inf)
+        scn = spec.alg_scale(Xn)
+        condn = np.maximum(1.0, 1.0 / np.maximum(2 * PI - spec.alg_angle(Xn), 0.05))
+        ctx.check_array("numeric_left_jacobian_is_dexp", name, el_, 1e-9 * scn, {"x": Xn})
+        ctx.check_array("numeric_right_jacobian_is_dexp", name, er_, 1e-9 * scn, {"x": Xn})
+        ctx.check_array("numeric_left_inv_is_inverse", name, eli_, 1e-9 * scn ** 2 * condn ** 2, {"x": Xn})
+        ctx.check_array("numeric_right_inv_is_inverse", name, eri_, 1e-9 * scn ** 2 * condn ** 2, {"x": Xn})
     ctx.sample({"algebra": name, "x": X[min(len(X) - 1, 5)]})
 
 
